@@ -181,6 +181,15 @@ func main() {
 	os.MkdirAll(filepath.Join(root, "n"), 0o755)
 	os.WriteFile(filepath.Join(root, "n", "t.txt"), []byte(strings.Repeat("under the excluded path. ", 10)), 0o644)
 
+	// overlapping requests first (E2, deterministic): when pooled compressors turn out to be shared between requests,
+	// the free-running sweep below (many requests at once on the real pools) would only crash on them
+	overlapPhase(rep, root)
+	if rep.ViolationCount() > 0 {
+		rep.Capped("the sweep of single requests was skipped: overlapping requests already disagree with the same requests served alone")
+		rep.Finish()
+		return
+	}
+
 	statuses := []string{"200", "404", "304", "204", "301"}
 	ctypes := []string{"", "hdr:Content-Type=text/plain"}
 	ces := []string{"", "gzip", "br", "zstd", "deflate", "x-gzip", "GZIP", "br, gzip"} // (also a legacy name, another letter case, two codings)
@@ -267,6 +276,9 @@ func main() {
 	specs = append(specs, reqSpec{"/n/t.txt", "", "static/excluded-path"}, reqSpec{"/missing.txt", "", "static/404"}, reqSpec{"/n", "", "static/dir-redirect"})
 	rep.Set("request_specs", len(specs))
 
+	if os.Getenv("C18_ONLY_OVERLAP") != "" { // (debug aid)
+		gzipBlocks = nil
+	}
 	for bi, blk := range gzipBlocks {
 		cf := fmt.Sprintf("g.test:8080 {\n\troot %s\n\t%s\n\terrors\n\tverif_probe\n}\np.test:8080 {\n\troot %s\n\terrors\n\tverif_probe\n}\n", root, blk, root)
 		l, err := kit.Load(cf, filepath.Join(root, "..", "Casketfile-c18"))
